@@ -7,4 +7,4 @@ Extraction "ren_model.ml" all_types uc_chop uc_slen uc_code uc_cput
   ren_position ren_wid pos_next pos_prev ren_pos ren_off ren_cursor ren_noeol ren_next chr_at
   dir_reverse dir_fix dir_match dir_context dir_reorder dr_of raw_of matcher_ok
   find_achar_o find_achar lookup_achar can_join uc_cshape uc_r2l uc_shape ren_translate
-  dwchars zwchars bchars achars dirmarks pat_nullable.
+  dwchars zwchars bchars achars dirmarks pat_nullable class_bounds.
